@@ -66,6 +66,11 @@ func resultType(fn *ssa.Function) types.Type {
 
 func (ex *Exec) registerIntrinsics() {
 	I := ex.intr
+	defer func() {
+		if registerIOIntrinsics != nil {
+			registerIOIntrinsics(ex, I)
+		}
+	}()
 	T := "gorgonia.org/tensor."
 	ts := ex.ts
 
@@ -642,6 +647,9 @@ func (ex *Exec) dynIntrinsic(recv Iface, method string) *boundIntr {
 	switch rv := recv.V.(type) {
 	case RType:
 		return &boundIntr{recv: rv, f: func(ex *Exec, fr *frame, a []V) V { return ex.rtypeMethod(method, a[0].(RType).T, a[1:]) }}
+	}
+	if recv.T == ex.ld.fmtStateType {
+		return &boundIntr{recv: recv.V, f: func(ex *Exec, fr *frame, a []V) V { return ex.fmtStateMethod(method, a[0].(Ptr), a[1:]) }}
 	}
 	if recv.T == ex.ld.fnvType {
 		return &boundIntr{recv: recv.V, f: func(ex *Exec, fr *frame, a []V) V { return ex.fnvMethod(method, a[0].(Ptr), a[1:]) }}
